@@ -46,7 +46,7 @@ claimed = {
    note="Trusted: the parser as tree constructor (C05), encoding/json, the projection walker. Positions are not encoded (json:\"-\") and not compared.",
    ref="DESIGN.md §4 C19"),
  "C14": dict(
-   technique=T + "all 240 variable types (list depth ≤3 × every non-null pattern × 8 named types) × every value within ≤2/3 deviations of the conforming skeleton (choice-tree DFS with prefix replay and deviation bounding over 28 leaf alternatives (incl. strings and ints of a named Go type), 12 list shapes (5 of them typed Go slices), 23 input-object variants) × default/no default, plus absent / explicit-null modes; oracle: reference coercion semantics (ref/refcoerce) on every execution",
+   technique=T + "all 240 variable types (list depth ≤3 × every non-null pattern × 8 named types) × every value within ≤2/3 deviations of the conforming skeleton (choice-tree DFS with prefix replay and deviation bounding over 28 leaf alternatives (incl. strings and ints of a named Go type), 12 list shapes (5 of them typed Go slices), 26 input-object variants) × default/no default, plus absent / explicit-null modes; oracle: reference coercion semantics (ref/refcoerce) on every execution",
    text="For every enumerated (type, variables) pair the real VariableValues runs on a freshly validated operation: it must return normally; if ref/refcoerce judges the value not coercible an error must come back; when values come back every declared variable must conform to its declared type (non-null, list items at every depth incl. single-value coercion, declared input fields with required ones present, declared enum values, compatible scalar kinds), absent variables hold their defaults, explicit nulls stay null, and a second absent variable keeps its default.",
    note="Trusted: ref/refcoerce (structural recursion from the specification; the scalar kind table is the library's documented one). Undecided and not compared: case-insensitive enum matches, __typename keys, unsigned/small integer kinds, numeric range. Refusing a coercible value is not a violation.",
    ref="DESIGN.md §4 C14"),
@@ -144,7 +144,7 @@ also8 = {
  "C10": "many-candidates (9 equally close candidates for type, field, argument, enum value, input field and directive names × every map-order policy)",
  "C11": "operation validate-typename-everywhere (21 operations)",
  "C13": "null, [], {}, [null], {k: null} defaults (22 literals)",
- "C14": "12 list shapes (5 typed Go slices), 23 input-object variants",
+ "C14": "12 list shapes (5 typed Go slices), 26 input-object variants",
  "C15": "30 literals incl. an escape followed by raw non-ASCII text and text on the opening line of a block string",
  "C16": "limits-profiles (the long profile documents of both grammars × every limit −2…N+2); one source pointer passed twice and three sources under one name through ParseSchemasWithLimit",
  "C17": "every multi-source layout also with all sources under one name and with a first source called prelude.graphql; 5 item triples under all 720 orders",
